@@ -51,7 +51,8 @@ M(pat, k, text, j, g) ==
       [] x.e = "eol"  -> IF j = Len(text) \/ (j = Len(text) - 1 /\ text[Len(text)] = 10)
                          THEN M(pat, k + 1, text, j, g) ELSE Fail
       [] x.e = "wb"   -> IF WordAt(text, j) # WordAt(text, j + 1) THEN M(pat, k + 1, text, j, g) ELSE Fail
-      [] x.e = "nwb"  -> IF WordAt(text, j) = WordAt(text, j + 1) THEN M(pat, k + 1, text, j, g) ELSE Fail
+      \* (\B never matches in an EMPTY text: that is how the re library tally delegates to behaves)
+      [] x.e = "nwb"  -> IF Len(text) > 0 /\ WordAt(text, j) = WordAt(text, j + 1) THEN M(pat, k + 1, text, j, g) ELSE Fail
       [] x.e = "gs"   -> M(pat, k + 1, text, j, <<j, g[2]>>)
       [] x.e = "ge"   -> M(pat, k + 1, text, j, <<g[1], j>>)
       [] x.e = "neg"  -> IF IsPrefixAt(UpperT(x.p), UpperT(text), j + 1) THEN Fail ELSE M(pat, k + 1, text, j, g)
